@@ -47,6 +47,8 @@ def check(run, prog, tier):
     eff = callgraph.Effects(cg)
     run.extra["indirect_calls_unresolved"] = [list(x) for x in cg.unresolved]
 
+    wr = ctxstate.find_restore_wrappers(prog)
+    run.note("restore_context wrappers (all paths restore their context parameter): %s" % (sorted(wr) or "none"))
     users = []
     for f in prog.functions():
         if f.name in ("save_context", "restore_context", "pop_context"):
@@ -121,12 +123,14 @@ def check(run, prog, tier):
             is_count = False
             for b, i, n in f.calls():
                 ci = STACK_CONSUMERS.get(n.get("fn"))
+                if ci is None and n.get("fn") in ctxstate.RESTORE_WRAPPERS:
+                    ci = ctxstate.RESTORE_WRAPPERS[n["fn"]]["lower"]      # restore to the saved level minus the arguments
                 if ci is None or ci >= len(n.get("args", [])):
                     continue
                 a = strip(n["args"][ci])
                 if a.get("k") == "Ref" and a.get("d") == "param" and a.get("pi") == p.get("pi"):
                     consumers.add(b.id)
-                    if n.get("fn") != "pop_n_elems":
+                    if n.get("fn") != "pop_n_elems" and n.get("fn") not in ctxstate.RESTORE_WRAPPERS:
                         is_count = True
             if not is_count:
                 continue
@@ -142,6 +146,33 @@ def check(run, prog, tier):
                     starts.extend(b.live_succ())
             starts = [s0 for s0 in starts if s0 is not None]
             path = f.reach_avoiding(starts, lambda blk: f.exit in blk.live_succ() and not blk.nr, avoid_blocks=consumers)
+            # on the recovery branch the number of arguments still on the stack is unknown (the callee keeps, drops or
+            # re-packs them): popping the original count there releases values of the caller
+            sj_true = []
+            for b, i, n in f.calls():
+                if n.get("fn") in ctxstate.SETJMP:
+                    c = f.branch_cond(b)
+                    if c is not None:
+                        e, t = normalize_cond(c, True)
+                        e0 = strip(e)
+                        nz = t
+                        if e0.get("k") == "Bin" and e0.get("op") in ("==", "!=") and const_val(e0["R"]) == 0:
+                            nz = t if e0["op"] == "!=" else not t
+                        sj_true.append(b.succ[0] if nz else b.succ[1])
+            if sj_true:
+                rec_blocks = cfgq.reach_set(f, [x for x in sj_true if x is not None])
+                badpop = [n for b, i, n in f.calls("pop_n_elems") if b.id in rec_blocks and n.get("args") and strip(n["args"][0]).get("k") == "Ref" and strip(n["args"][0]).get("d") == "param" and strip(n["args"][0]).get("pi") == p.get("pi")]
+                # only pops that are not also reachable from the normal (zero) return of setjmp
+                sj_false = []
+                for b, i, n in f.calls():
+                    if n.get("fn") in ctxstate.SETJMP and f.branch_cond(b) is not None:
+                        sj_false += [x for x in b.live_succ() if x not in sj_true]
+                ok_blocks = cfgq.reach_set(f, sj_false) if sj_false else set()
+                badpop = [n for n in badpop if not any(b.id in ok_blocks for b, i, n2 in f.calls("pop_n_elems") if n2 is n)]
+                run.ob("C05-f", "recovery-pop:%s:%s" % (rel(f.file), f.name), not badpop,
+                       "the recovery branch does not pop the original argument count" if not badpop else
+                       "pop_n_elems(%s) at line %s on the recovery branch: how many of the arguments are left when the error is raised depends on the callee (excess ones dropped, varargs packed, bound arguments added) - values of the caller are released or the stack underflows" % (p["n"], badpop[0].get("l")),
+                       f.file, badpop[0].get("l") if badpop else f.line, f.name, what="%s pops its full argument count after a failed call whose callee may already have dropped arguments" % f.name)
             run.ob("C05-f", "args:%s:%s:%s" % (rel(f.file), f.name, p["n"]), path is None,
                    "every path after a successful save_context consumes the %s stacked arguments (callee or pop_n_elems)" % p["n"] if path is None
                    else "path %s returns without consuming the %s stacked arguments (value stack not restored)" % (path, p["n"]),
@@ -201,6 +232,24 @@ def check(run, prog, tier):
     w2m = w2 - {"framekind"}  # the frame kind is consumed by the unwinder (error_handler/do_catch), not a register
     run.ob("C05-b", "frame-fields", w2m <= r2, "push_control_stack saves %s; pop_control_stack restores %s" % (sorted(w2m), sorted(r2 & w2m)), pu.file, pu.line, "push_control_stack",
            what="register(s) saved by push_control_stack but not restored by pop_control_stack: %s" % sorted(w2m - r2))
+
+    # the value stack is unwound by a count that cannot be negative: inside the apply family the context is saved with the
+    # arguments on the stack, and a callee that fails may already have dropped some of them (sp below save_sp)
+    pops = [(b, i, n) for b, i, n in rc.calls("pop_n_elems") if n.get("args") and any(x.get("k") == "Mem" and x.get("f") == "save_sp" for x in walk(n["args"][0]))]
+    run.need(pops, "pop_n_elems(sp - econ->save_sp) in restore_context")
+    for j, (b, i, n) in enumerate(pops):
+        g_ok = False
+        for c, truth, gb in cfgq.guards(rc, b.id):
+            e, t = normalize_cond(c, truth)
+            e = strip(e)
+            if e.get("k") == "Bin" and e.get("op") in (">", ">=", "<", "<=") and any(x.get("k") == "Mem" and x.get("f") == "save_sp" for x in walk(e)) and any(x.get("k") == "Ref" and x.get("n") == "sp" for x in walk(e)):
+                op = e["op"] if t else {">": "<=", ">=": "<", "<": ">=", "<=": ">"}[e["op"]]
+                sp_left = any(x.get("k") == "Ref" and x.get("n") == "sp" for x in walk(e["L"]))
+                if (sp_left and op in (">", ">=")) or (not sp_left and op in ("<", "<=")):
+                    g_ok = True
+        run.ob("C05-b", "restore-pop-count:%d" % j, g_ok, "pop_n_elems(%s) runs only when sp is not below the saved level" % show(n["args"][0]) if g_ok else
+               "pop_n_elems(%s) is not guarded by sp > save_sp: a callee of a protected call that dropped excess arguments before failing leaves sp below the saved level and the (unsigned) count wraps" % show(n["args"][0]),
+               rc.file, n.get("l"), "restore_context", what="restore_context unwinds the value stack by a negative count when the failed callee had dropped arguments")
 
     # the restore is a pair-wise inverse and unconditional: restore_context() pops only the frame at save_csp + 1 and relies on
     # that single pop to bring back every register, whatever kind of frame it is
@@ -464,6 +513,10 @@ def check(run, prog, tier):
             if fn in FAM and len(args) > FAM[fn] and any(x.get("k") == "Ref" and x.get("n") == pname and x.get("d") == "param" for x in walk(args[FAM[fn]])):
                 consuming.add(b.id)
             elif fn in ("pop_n_elems",) and args and any(x.get("k") == "Ref" and x.get("n") == pname for x in walk(args[0])):
+                consuming.add(b.id)
+            elif fn in ctxstate.RESTORE_WRAPPERS and ctxstate.RESTORE_WRAPPERS[fn]["lower"] is not None and len(args) > ctxstate.RESTORE_WRAPPERS[fn]["lower"] \
+                    and any(x.get("k") == "Ref" and x.get("n") == pname and x.get("d") == "param" for x in walk(args[ctxstate.RESTORE_WRAPPERS[fn]["lower"]])):
+                # restore to the saved level lowered by the arguments: whatever is left of them is released
                 consuming.add(b.id)
             elif fn in ("restore_context",):
                 # the saved stack pointer predates the arguments only if the context was saved before they were pushed:
